@@ -314,11 +314,57 @@ var failClasses = []failClass{
 	}},
 	{"delta-invalid-patch", "cur", func(h *histCtx, s *opStep) {
 		bad := gen.RandDocKey(h.r, strings.Repeat("k", 51))
-		if h.r.Bool() {
+		var badPatch map[string]interface{}
+		edKey := func() map[string]interface{} {
+			return gen.DocKey(h.r, "key1", gen.TEd2018, []string{"authentication"}, "jwk")
+		}
+		switch h.r.Intn(14) {
+		case 0:
 			bad = gen.RandDocKey(h.r, "key1")
 			bad["extra"] = true
+		case 1: // key material present but unusable
+			bad = edKey()
+			bad["publicKeyJwk"] = nil
+		case 2:
+			bad = edKey()
+			bad["publicKeyJwk"] = "not-an-object"
+		case 3:
+			bad = edKey()
+			delete(bad, "publicKeyJwk")
+			bad["publicKeyBase58"] = ""
+		case 4:
+			bad = edKey()
+			delete(bad, "publicKeyJwk")
+		case 5:
+			bad = edKey()
+			bad["purposes"] = []interface{}{"authentication", "frobnication"}
+		case 6:
+			bad = edKey()
+			bad["id"] = "key 1"
+		case 7:
+			bad = edKey()
+			delete(bad, "type")
+		case 8:
+			sv := gen.RandService(h.r, "svc1")
+			sv["type"] = strings.Repeat("t", 31)
+			badPatch = gen.PAddServices(sv)
+		case 9:
+			sv := gen.RandService(h.r, "svc1")
+			sv["serviceEndpoint"] = "not a uri"
+			badPatch = gen.PAddServices(sv)
+		case 10:
+			badPatch = gen.PAddAka("https://ok.example", "::not a uri::")
+		case 11:
+			badPatch = gen.PRemoveKeys("ok", "bad id")
+		case 12:
+			badPatch = gen.PReplace([]interface{}{edKey(), edKey()}, nil) // duplicate ids
+		case 13:
+			badPatch = gen.PRemoveServices()
 		}
-		s.Spec.Patches = []interface{}{gen.PAddKeys(gen.RandDocKey(h.r, "ok1")), gen.PAddKeys(bad)}
+		if badPatch == nil {
+			badPatch = gen.PAddKeys(bad)
+		}
+		s.Spec.Patches = []interface{}{gen.PAddKeys(gen.RandDocKey(h.r, "ok1")), badPatch}
 		s.Facts.Patches = s.Spec.Patches
 		s.Facts.DeltaValid = false
 	}},
@@ -467,6 +513,16 @@ var failClasses = []failClass{
 		s.Facts.ParseOK = false
 		s.Facts.SuffixMatch = false
 	}},
+	{"signed-suffix-missing", "d", func(h *histCtx, s *opStep) {
+		s.Spec.PayloadEdit = func(p map[string]interface{}) { delete(p, "didSuffix") }
+		s.Facts.ParseOK = false
+		s.Facts.SuffixMatch = false
+	}},
+	{"signed-suffix-empty", "d", func(h *histCtx, s *opStep) {
+		s.Spec.SignedSuffix = gen.S("")
+		s.Facts.ParseOK = false
+		s.Facts.SuffixMatch = false
+	}},
 	{"create-missing-suffix-data", "c", func(h *histCtx, s *opStep) {
 		s.Spec.RequestEdit = func(m map[string]interface{}) { delete(m, "suffixData") }
 		s.Facts.ParseOK = false
@@ -536,7 +592,12 @@ func histPatches(h *histCtx, doc map[string]interface{}) []interface{} {
 	for i := 0; i < n; i++ {
 		if h.hasIETF && r.Chance(1, 4) {
 			name := fw.Pick(r, []string{"foo", "bar", "meta"})
-			val := fw.Pick(r, []interface{}{1, "v", map[string]interface{}{"a": []interface{}{1, 2}}, true})
+			val := fw.Pick(r, []interface{}{1, "v", map[string]interface{}{"a": []interface{}{1, 2}}, true,
+				// values whose canonical form is easy to get wrong: member names ordered by UTF-16 units (BMP above the surrogates vs
+				// astral), names related by prefix, numbers beyond 2^53 / 2^63, exponents, characters encoding/json escapes
+				map[string]interface{}{"\uff21": 1, "\U0001F600": 2, "\ue000": 3, "\ud7ff": 4, "a": 5, "ab": 6, "": 7},
+				map[string]interface{}{"big": 9223372036854775808.0, "bigger": 1e20, "huge": 1e21, "tiny": 1e-7, "odd": 9007199254740993.0, "neg": -2.5e-8},
+				"<a&b>\u2028\u2029 \u007f \u00e9 \\u0041", []interface{}{nil, []interface{}{}, map[string]interface{}{}, -0.0}})
 			out = append(out, gen.PJSON(map[string]interface{}{"op": "add", "path": "/" + name, "value": val}))
 			continue
 		}
